@@ -5,10 +5,12 @@
 pub struct Pass {
     pub nontrivial: bool,
     pub classes: Vec<&'static str>,
+    /// number of sub-cases the oracle enumerated inside this case (cut points, truncation offsets, schedules ...)
+    pub subcases: u64,
 }
 impl Pass {
     pub fn new(nontrivial: bool) -> Self {
-        Pass { nontrivial, classes: Vec::new() }
+        Pass { nontrivial, classes: Vec::new(), subcases: 0 }
     }
     pub fn class(mut self, c: &'static str) -> Self {
         self.classes.push(c);
